@@ -176,10 +176,10 @@ theorem mint_shade (b : Bus) : mint (shade k b) = (shade k (mint b).1, (mint b).
 
 theorem activate_shade (b : Bus) (c : ConnId) (nm : Bytes) : activate (shade k b) c nm = shade k (activate b c nm) := by
   unfold activate
-  have hb : Blind k (fun x : Conn => { x with name := some nm, policy := b.policy.clientRules x.uid x.gids false }) := by
+  have hb : Blind k (fun x : Conn => { x with name := some nm, policy := b.policy.clientPolicy b.limits.maxFdsDefault x.uid x.gids false }) := by
     exact blind_of_fields _ (fun _ => rfl) (fun _ => rfl) (fun _ => rfl)
   have := updConn_shade b c _ hb
-  show ({ (shade k b).updConn c (fun x : Conn => { x with name := some nm, policy := b.policy.clientRules x.uid x.gids false }) with
+  show ({ (shade k b).updConn c (fun x : Conn => { x with name := some nm, policy := b.policy.clientPolicy b.limits.maxFdsDefault x.uid x.gids false }) with
           minted := nm :: b.minted } : Bus) = _
   rw [this]
   rfl
@@ -707,12 +707,12 @@ theorem reloadPolicy_shade (b : Bus) (p : Policy) : reloadPolicy (shade k b) p =
   | true =>
     rw [neutral_of_shaded hs]
     split
-    · exact (neutral_of_shaded (x := { x with policy := p.clientRules x.uid x.gids false }) hs).symm
+    · exact (neutral_of_shaded (x := { x with policy := p.clientPolicy b.limits.maxFdsDefault x.uid x.gids false }) hs).symm
     · exact (neutral_of_shaded hs).symm
   | false =>
     rw [neutral_of_not_shaded hs]
     split
-    · exact (neutral_of_not_shaded (x := { x with policy := p.clientRules x.uid x.gids false }) hs).symm
+    · exact (neutral_of_not_shaded (x := { x with policy := p.clientPolicy b.limits.maxFdsDefault x.uid x.gids false }) hs).symm
     · exact (neutral_of_not_shaded hs).symm
 
 theorem shadow_fold_noReply : ∀ (ps : List Pending) {t t' : Tx}, Shadow k t t' →
